@@ -6,7 +6,9 @@ import (
 	"reflect"
 	"strings"
 
+	"sigs.k8s.io/kustomize/api/resource"
 	"sigs.k8s.io/kustomize/kyaml/filesys"
+	"sigs.k8s.io/kustomize/kyaml/kio/kioutil"
 )
 
 var internalAnnoPrefixes = []string{"internal.config.kubernetes.io/"}
@@ -15,6 +17,11 @@ var internalAnnoKeys = map[string]bool{"config.kubernetes.io/path": true, "confi
 	"kustomize.config.k8s.io/behavior": false, "kustomize.config.k8s.io/needs-hash": false}
 
 func isBookkeepingKey(k string) bool {
+	for _, b := range resource.BuildAnnotations {
+		if k == b {
+			return true
+		}
+	}
 	for _, p := range internalAnnoPrefixes {
 		if strings.HasPrefix(k, p) {
 			return true
@@ -82,7 +89,11 @@ func init() {
 					for _, kv := range [][2]string{{"config.kubernetes.io/origin", "path: old/res.yaml\n"},
 						{"alpha.config.kubernetes.io/transformations", "- configuredIn: old/kustomization.yaml\n  configuredBy:\n    apiVersion: builtin\n    kind: PrefixTransformer\n"},
 						{"config.kubernetes.io/path", "old/res.yaml"}, {"config.kubernetes.io/index", "0"},
-						{"internal.config.kubernetes.io/path", "old/res.yaml"}, {"internal.config.kubernetes.io/index", "0"}} {
+						{"internal.config.kubernetes.io/path", "old/res.yaml"}, {"internal.config.kubernetes.io/index", "0"},
+						// every reader-side key registered in resource.BuildAnnotations, legacy spellings included
+						{kioutil.SeqIndentAnnotation, "compact"}, {kioutil.IdAnnotation, "1"}, {kioutil.LegacyIdAnnotation, "1"},
+						{kioutil.InternalAnnotationsMigrationResourceIDAnnotation, "7"}, {kioutil.LegacyPathAnnotation, "old/res.yaml"},
+						{kioutil.LegacyIndexAnnotation, "3"}} {
 						if r.Intn(2) == 0 {
 							an[kv[0]] = kv[1]
 						}
